@@ -57,6 +57,8 @@ func checkC05(c *Ctx, r *Report) {
 	parseNarrowing(c, r, "C05.R6.parse-narrowing")
 	genericPrefix(c, r, "C05.R2.generic-prefix")
 	nodeIDFormat(c, r, "C05.R4.nodeid-format")
+	resetOnConvert(c, r, "C05.R2.rfc3597-reset", "a reused RFC3597 value keeps the Rdata of the record converted before: the generic form printed for an RDATA-less record shows another record's octets")
+	keywordCase(c, r, "C05.R2.keyword-case")
 }
 
 // c05R5: numeric limit agreement: the TTL parser accepts exactly the range the 32-bit header field (and its printer) has.
